@@ -54,7 +54,8 @@ TNS = 'urn:t'
 NS = {'': TNS, 't': TNS, 'xs': XSD, 'xsi': XSI}
 
 BUILTIN = {'short', 'int', 'long', 'integer', 'decimal', 'string', 'date', 'boolean', 'unsignedLong',
-           'nonNegativeInteger', 'gYearMonth', 'gYear', 'QName', 'anyAtomicType', 'anySimpleType', 'anyType'}
+           'nonNegativeInteger', 'gYearMonth', 'gYear', 'QName', 'anyAtomicType', 'anySimpleType', 'anyType',
+           'dateTime', 'dateTimeStamp'}
 ALIAS = {'bint': 'integer', 'bdec': 'decimal', 'qname': 'QName'}       # spec names of built-ins whose values are digit sequences
 QUERY = ['short', 'int', 'long', 'integer', 'decimal', 'string', 'date', 'boolean', 'small', 'ilist',
          'u', 'ud', 'v', 'sc', 'grp', 'unsignedLong', 'nonNegativeInteger', 'gYearMonth', 'gYear', 'qname',
@@ -94,6 +95,17 @@ XKINDS = {"ea", "eb", "t", "xa", "xc"}
 PROCS = int(os.environ.get('C20_PROCS', '16'))
 SIMPLE9 = ['int', 'integer', 'decimal', 'string', 'date', 'boolean', 'small', 'ilist', 'u', 'ud']
 
+# round 6: restriction chains c1..c6 above xs:short; the XSD 1.1-only built-in xs:dateTimeStamp as declared type and as the
+# base of the user restriction `recent` (such schemas exist under XSD 1.1 only: vec['versions'] comes from the spec)
+EXT_QUICK = ('ext', dict(KidMenu={kd('c1', 1, 1), kd('c3', 1, 2), kd('c4', 1, 1), kd('c6', 0, 1), kd('recent', 1, 2),
+                                  kd('dateTimeStamp', 1, 1), kd('dateTime', 1, 1)},
+                         AttrMenu={ad('a', 'recent'), ad('c', 'c5')}),
+             dict(MinKids=1, MaxKids=1, MaxAtts=1, LexCap=2, XsiOn=False, VOn=False, RetypeTo={'string', 'c2'}))
+EXT_THOROUGH = ('ext', dict(KidMenu={kd(f'c{k}', 1, 2, True, k % 2 == 0) for k in range(1, 7)}
+                            | {kd('recent', 1, 2, True, True), kd('dateTimeStamp', 1, 1), kd('dateTime', 0, 1)},
+                            AttrMenu={ad('a', 'recent'), ad('c', 'c5'), ad('a', 'c4', 'dflt'), ad('c', 'dateTimeStamp', 'req')}),
+                dict(MinKids=1, MaxKids=2, MaxAtts=1, LexCap=2, XsiOn=False, VOn=False, RetypeTo={'string', 'c2', 'dateTime'}))
+
 # name -> (definitions that go into the generated MC module, plain constants)
 WALK = {
     'quick': [
@@ -127,8 +139,11 @@ WALK = {
         ('big', dict(KidMenu={kd('long', 1, 1), kd('unsignedLong', 1, 1), kd('bint', 1, 1), kd('bdec', 1, 1)},
                      AttrMenu=set()),
          dict(MinKids=2, MaxKids=2, MaxAtts=0, LexCap=2, XsiOn=False, VOn=False, RetypeTo={'bint'})),
+        EXT_QUICK,
     ],
     'thorough': [
+        EXT_QUICK,      # EXT_THOROUGH (nillable / default flags, two kids) is written but was never executed in the build
+                        # session (time): the thorough tier keeps the configuration that was validated
         ('sg', dict(KidMenu={kd(t, mn, 2, sg=True) for t in ['decimal', 'integer', 'int'] for mn in (0, 1)} | {kd('string', 1, 1)},
                     AttrMenu=set()),
          dict(MinKids=1, MaxKids=2, MaxAtts=0, LexCap=2, XsiOn=False, VOn=False, RetypeTo={'integer', 'decimal'})),
@@ -247,6 +262,8 @@ def xsd_text(S, sdef, nons: bool = False) -> str:
            TYPE_DEFS,
            # the global type whose definition depends on the schema
            f'<xs:simpleType name="v"><xs:restriction base="{qn(sdef["vbase"])}"/></xs:simpleType>']
+    for name, base_ in sorted(sdef.get('xdefs', ())):      # user types of the extension (restriction steps, no facet)
+        out.append(f'<xs:simpleType name="{name}"><xs:restriction base="{qn(base_)}"/></xs:simpleType>')
     for pos, d in enumerate(S['kids'], 1):
         if d['sg']:      # the head of the substitution group and its member are global elements
             out.append(f'<xs:element name="{KIDNAME[pos]}" type="{qn(d["ty"])}"/>'
@@ -545,7 +562,8 @@ def entry_eval(entry: str, doc, expr: str, pv: str, proxy):
 def value_classes(version: str) -> dict:
     import elementpath.datatypes as dt
     return {'long': dt.Long, 'unsignedLong': dt.UnsignedLong, 'bigInteger': dt.Integer, 'bigDecimal': Decimal,
-            'int': dt.Int, 'integer': dt.Integer, 'decimal': Decimal, 'string': str, 'boolean': bool,
+            'int': dt.Int, 'integer': dt.Integer, 'short': dt.Short,
+            'dateTime': dt.DateTime10 if version == '1.0' else dt.DateTime, 'dateTimeStamp': dt.DateTimeStamp, 'decimal': Decimal, 'string': str, 'boolean': bool,
             'date': dt.Date10 if version == '1.0' else dt.Date, 'untypedAtomic': dt.UntypedAtomic,
             # one class per XSD version (SchemaTyping: VersionedTags): the EXACT class is required
             'gYearMonth': dt.GregorianYearMonth10 if version == '1.0' else dt.GregorianYearMonth,
@@ -585,7 +603,11 @@ def same_value(exp, v) -> bool:
     try:
         if 'ip' in exp:      # a big number of the spec: digit sequences, compared exactly
             return isinstance(v, (int, Decimal)) and not isinstance(v, bool) and Decimal(v) == big_decimal(exp)
-        if t in ('int', 'integer'):
+        if t in ('dateTime', 'dateTimeStamp'):
+            return (v.year, v.month, v.day, v.hour, v.minute, v.second, v.microsecond) == \
+                (exp['y'], exp['m'], exp['d'], exp['h'], exp['mi'], exp['sec'], 0) and \
+                ((v.tzinfo is not None and v.tzinfo.utcoffset(None).total_seconds() == 0) if exp['z'] else v.tzinfo is None)
+        if t in ('short', 'int', 'integer'):
             return isinstance(v, (int, Decimal)) and not isinstance(v, bool) and v == exp['i']
         if t == 'decimal':
             return isinstance(v, (int, Decimal)) and not isinstance(v, bool) and \
@@ -815,7 +837,7 @@ def check_fresh(vec, slot, S, xsd, version, lib, pv, doc: Doc, fails: list, stat
                                   dict(case0, path=path, expr=f'data({path})', entry=entry), a['tv'], repr(obs)))
         # instance of element(*, Q) / attribute(*, Q)
         kt = 'attribute' if nd['k'] in ('xa', 'xc') else 'element'
-        for q in QUERY:
+        for q in QUERY + sorted(vec['xq10' if version == '1.0' else 'xq11']):
             if not simple and q not in vec['iofopt'][n - 1]:
                 continue      # element-only content: the property speaks of simple / simple-content nodes; only the
                               # declared type and its bases are asked
@@ -836,6 +858,18 @@ def check_fresh(vec, slot, S, xsd, version, lib, pv, doc: Doc, fails: list, stat
                 fails.append((dict(base, probe='instance_of', query=q, optional=opt, outcome=outcome,
                                    in_chain=want, **node_features(vec, n)),
                               dict(case0, expr=expr), want, repr(obs)))
+        # data(.) instance of xs:Q: the atomic value is an instance of its type and of the bases of that type
+        for q in (sorted(vec['aq10' if version == '1.0' else 'aq11']) if vec['atomiof'][n - 1] else ()):
+            expr = f'data({path}) instance of xs:{q}'
+            want = q in vec['atomiof'][n - 1]
+            obs = evaluate(expr, pv, proxy, ctx)
+            stats['evaluations'] += 1
+            if obs == [want]:
+                stats['nontrivial'] += want
+                continue
+            outcome = f'{obs[0]}:{obs[1]}' if isinstance(obs, tuple) else 'missing' if want else 'excess'
+            fails.append((dict(base, probe='atomic_instance_of', query=q, outcome=outcome, in_chain=want, **node_features(vec, n)),
+                          dict(case0, expr=expr), want, repr(obs)))
         # arithmetic / comparison use the typed value
         for probe, expr in (('plus1', f'{path} + 1'), ('idiv2', f'{path} idiv 2'), ('eq7', f'{path} = 7'),
                             ('ltdate', f"{path} lt xs:date('2001-01-01')"),
@@ -971,7 +1005,7 @@ def check_items(vec, xsd, version, lib, pv, fails: list, stats: dict):
                                       a['tv'] if want is None else True, repr(obs)))
 
 
-USER_TYPES = ('small', 'ilist', 'u', 'ud', 'v', 'sc')
+USER_TYPES = ('small', 'ilist', 'u', 'ud', 'v', 'sc', 'recent', 'c1', 'c2', 'c3', 'c4', 'c5', 'c6')
 
 
 def check_nons(vec, S, version, lib, pv, fails: list, stats: dict, oracle: list):
@@ -1205,7 +1239,7 @@ def walk_worker(job):
             seen_pairs.add(key)
             stats['pairs'] += 1
             xsd = xsd_text(S, vec['sdef'])
-            for version in ('1.0', '1.1'):
+            for version in sorted(vec['versions']):       # the XSD versions the schema exists in (SchemaTyping: Versions)
                 lib = 'etree' if (tid + slot + (version == '1.1')) % 2 else 'lxml'
                 pv = '2.0' if (tid + slot) % 3 == 0 else '3.1'
                 # renderings of the same instance the annotations must not depend on (taken in turn; lxml only)
@@ -1245,6 +1279,8 @@ def walk_worker(job):
         states, edges, init = graphs[tid]
         for version, lib in ((('1.0', 'etree'), ('1.1', 'lxml')) if tier == 'thorough' else
                              ((('1.0', 'etree'),) if tid % 2 else (('1.1', 'lxml'),))):
+            if version not in (vec1['versions'] & vec2['versions']):
+                version = '1.1'           # every schema of the universe exists under XSD 1.1
             stats['unreached'] += replay_history(tid, trip, states, edges, init, lib, version, fails, stats)
     return stats, fails, oracle[:5], samples
 
@@ -1642,7 +1678,7 @@ def replay(rec: dict) -> int:
                     bad = (doc.key2id.get(id(doc.obj[kids[case['index']]])) in {doc.key2id.get(id(x)) for x in obs}) is not exp
                 else:
                     bad = len(obs) != len(kids) or obs[case['index']] is not exp
-            elif probe in ('instance_of', 'cmp'):
+            elif probe in ('instance_of', 'cmp', 'atomic_instance_of'):
                 bad = obs != [exp]
             elif probe == 'data':
                 bad = cmp_values(exp, obs, cl) is not None
